@@ -105,7 +105,8 @@ Step(e) ==
        \* the episode is over: its obligations end with it (positions stay monotone across episodes)
        /\ open' = [open EXCEPT ![e.r][e.lane] = FALSE]
        /\ pend' = [pend EXCEPT ![e.r][e.lane] = FALSE]
-       /\ win' = [win EXCEPT ![e.r][e.lane] = 0]
+       \* (a sync requested after the unlink request is answered after this frame: its window stays open)
+       /\ win' = win
        /\ hasV' = [hasV EXCEPT ![e.r][e.lane] = FALSE]
        /\ changed' = [changed EXCEPT ![e.r][e.lane] = FALSE]
        /\ synced' = [synced EXCEPT ![e.r][e.lane] = FALSE]
